@@ -160,6 +160,11 @@ class FlagTracking(Client):
             v = assigned_value(node)
             if isinstance(v, ast.Constant) and (v.value is None or isinstance(v.value, bool)):
                 flags = flags | {(depth, node.id, v.value)}
+            elif isinstance(v, ast.Name):
+                # keep_sending = <result local of an inlined predicate>: a copy of a tracked flag carries its value
+                for d_, n_, c_ in state[1]:
+                    if d_ == depth and n_ == v.id:
+                        flags = flags | {(depth, node.id, c_)}
         elif kind == "loophead" and isinstance(node, (ast.For, ast.While)):
             # flags assigned inside the loop may have either value at its head on a later round: forget those this round may
             # re-assign differently only when the inner state does not tell the rounds apart (kept simple: keep the values, the
